@@ -179,21 +179,19 @@ def rule_R3(chk, repo, vals):
         chk.ob(rid, where(repo, fi, fi.node), f'{name}: W.1 is contracted with the physical leg of the ket tensor', ok,
                f'{w1}', key=f'{rid}|{name}|W1')
         n += 1
-    # apply_operator / multiply_mpo: first tensordot in the site loop
-    for q, pat, what in (('operation.apply_operator', 'np.tensordot(__W, __A, axes=(1, 0))', 'op.A[i] leg 1 with psi.A[i] leg 0'),
-                         ('mpo.multiply_mpo', 'np.tensordot(__W, __A, (1, 0))', 'op0.A[i] leg 1 with op1.A[i] leg 0')):
-        fi = repo.func(q)
-        calls = [c for c in ast.walk(fi.node) if isinstance(c, ast.Call) and norm(c.func) == 'np.tensordot']
-        if len(calls) != 1:
-            raise AnalysisError(f'{q}: expected one tensordot')
-        c = calls[0]
-        axn = c.args[2] if len(c.args) > 2 else [k.value for k in c.keywords if k.arg == 'axes'][0]
-        ok = norm(axn) in ('(1, 0)', '([1], [0])', '((1,), (0,))')
-        first, second = norm(c.args[0]), norm(c.args[1])
-        order_ok = (first.startswith('op.') and second.startswith('psi.')) or \
-                   (first.startswith('op0.') and second.startswith('op1.'))
-        chk.ob(rid, where(repo, fi, c), f'{fi.name}: contracts {what}', ok and order_ok, norm(c)[:80],
-               key=f'{rid}|{q}|axes')
+    # apply_operator / multiply_mpo: the contraction of the site loop, read off the leg-domain value of the site tensor
+    # (whichever of tensordot / einsum / matmul builds it)
+    from . import arith
+    for q, what in (('operation.apply_operator', 'op.A[i] leg 1 with psi.A[i] leg 0'),
+                    ('mpo.multiply_mpo', 'op0.A[i] leg 1 with op1.A[i] leg 0')):
+        fi, loop, v, err, (X, Y) = arith.product_site_value(repo, q)
+        if v is None:
+            chk.ob(rid, where(repo, fi, loop), f'{fi.name}: contracts {what}', False, err, key=f'{rid}|{q}|axes')
+        else:
+            c = lg.canon(v)
+            chk.ob(rid, where(repo, fi, loop), f'{fi.name}: contracts {what}',
+                   c['pairs'] == [tuple(sorted((f'{X}.1', f'{Y}.0')))] and not c['conj'], f'contracted pairs {c["pairs"]}',
+                   key=f'{rid}|{q}|axes')
         n += 1
     chk.floor(rid, n, 6)
 
@@ -219,6 +217,24 @@ def rule_R4(chk, repo):
         fi = repo.func(q)
         kfi = repo.func('operation.' + kernel)
         calls = [c for c in ast.walk(fi.node) if isinstance(c, ast.Call) and norm(c.func) == kernel]
+        if not calls:
+            # delegation: the driver returns the value of a sibling driver over the same kernel; the documented slot
+            # assignment must come out of the sibling's assignment composed with the arguments of the call
+            rets = [r for r in ast.walk(fi.node) if isinstance(r, ast.Return) and r.value is not None]
+            live = [r for r in rets if not (isinstance(r.value, ast.Constant))]
+            dc = live[0].value if len(live) == 1 else None
+            g = 'operation.' + norm(dc.func) if isinstance(dc, ast.Call) and isinstance(dc.func, ast.Name) else None
+            if g in DRIVERS and g != q and DRIVERS[g][0] == kernel and not dc.keywords and \
+                    len(dc.args) == len(repo.func(g).params):
+                bind = dict(zip(repo.func(g).params, [norm(a) for a in dc.args]))
+                for p, obj in roles.items():
+                    got = bind.get(DRIVERS[g][1][p])
+                    chk.ob(rid, where(repo, fi, dc), f'{fi.name}: delegates to {norm(dc.func)}; slot {p} of {kernel} receives '
+                           f'the tensors of {obj}', got == obj, f'`{norm(dc)}` puts `{got}` there', key=f'{rid}|{q}|{p}')
+                    n += 1
+                # the other obligations (threading, sweep, start, dummy bond) are those of the sibling, checked there
+                n += 3 + (1 if 'operator' in kernel and 'density' not in kernel else 0)
+                continue
         if len(calls) != 1:
             raise AnalysisError(f'{q}: expected exactly one call of {kernel}, found {len(calls)}')
         c = calls[0]
@@ -243,8 +259,7 @@ def rule_R4(chk, repo):
         chk.ob(rid, where(repo, fi, c), f'{fi.name}: the running environment is threaded through the last slot', bool(ok),
                f'target `{tvar}`, last argument `{norm(c.args[-1])}`', key=f'{rid}|{q}|thread')
         it = norm(loop.iter)
-        nsites = {'reversed(range(psi.nsites))', 'reversed(range(rho.nsites))', 'reversed(range(chi.nsites))',
-                  'reversed(range(op.nsites))'}
+        nsites = {f'reversed(range({o}))' for o_ in ('psi', 'rho', 'chi', 'op') for o in (f'{o_}.nsites', f'len({o_}.A)')}
         chk.ob(rid, where(repo, fi, loop), f'{fi.name}: sweep runs right to left over all sites', it in nsites, it,
                key=f'{rid}|{q}|sweep')
         n += 2
